@@ -14,3 +14,4 @@ import SJ.Props.TypedDepth
 #print axioms SJ.Props.TypedDepth.c14_typed_limit_hit
 #print axioms SJ.Props.TypedDepth.c14_typed_tower
 #print axioms SJ.Props.TypedDepth.c14_typed_value_depth
+#print axioms SJ.Props.TypedDepth.c14_typed_wrapper_depth
